@@ -252,7 +252,13 @@ func (x *Exec) callModifies(c *ssa.CallCommon) ([]string, bool) {
 	}
 	if sc := c.StaticCallee(); sc != nil {
 		if sc.Pkg != x.p.SSA && x.p.Names[sc] == "" {
-			return []string{"alloc", "ghost:*"}, false
+			if r := sc.Signature.Recv(); r != nil {
+				switch typeStr(r.Type()) {
+				case "*bytes.Buffer", "*strings.Builder":
+					return []string{"alloc", "ghost:buf"}, false
+				}
+			}
+			return []string{"alloc"}, false
 		}
 		if fc := x.contractOf(sc); fc != nil && fc.HasMod {
 			return x.modKeys(fc), false
@@ -756,14 +762,20 @@ func (x *Exec) applyContract(s *State, in *ssa.Call, fc *FuncContract, callee *s
 		}
 	}
 	for _, cl := range append(fc.clauses("ensures"), fc.clauses("ensures-assumed")...) {
-		if cl.Kind == "ensures-assumed" && !streams && cl.Label != "deterministic" && cl.Label != "client-loader" && cl.Label != "itcur-def" {
+		if cl.Kind == "ensures-assumed" && !streams && streamLabels[cl.Label] {
 			continue
 		}
 		if ps, excl := cl.exclusive(); excl && !hasProp(ps, x.prop) {
 			continue
 		}
+		if cl.localOnly() {
+			continue
+		}
 		t, err := env.evalBool(cl.Expr)
 		if err != nil {
+			if callee != nil && strings.Contains(err.Error(), "unknown n") {
+				continue // a clause about the callee's locals says nothing to the caller
+			}
 			x.unsupported("ensures of %s: %v", fc.Key, err)
 			continue
 		}
@@ -955,6 +967,17 @@ func (x *Exec) keepOwnNavigators(s *State, pre map[string]T, args []Val, recv *s
 		r := mk(SInt, "iptr", nv)
 		s.assume(Eq(Select(cur, r, SPos), Select(old, r, SPos)))
 	}
+	if x.fnc != nil && len(s.frames) == 1 {
+		for _, name := range x.fnc.OwnsNavs {
+			env := x.specEnvFor(s, "owns-navigators")
+			env.oldHeap = pre
+			f := fmt.Sprintf("forall(i, int, 0 <= i && i < len(%s) ==> pos(%s[i]) == old(pos(%s[i])))", name, name, name)
+			if t, err := env.evalBool(f); err == nil {
+				s.assume(t)
+				x.assumed["ownership: navigators this function collected in "+name+" are not moved by the functions it calls"] = true
+			}
+		}
+	}
 	if keepsCursor && len(s.frames) > 0 {
 		x.assumed["iterator closures move only navigators they created (never the caller's context cursor)"] = true
 		fr := s.frames[0]
@@ -972,6 +995,9 @@ func (x *Exec) keepOwnNavigators(s *State, pre map[string]T, args []Val, recv *s
 		}
 	}
 }
+
+// assumed clauses that only make sense with the ghost stream machinery switched on
+var streamLabels = map[string]bool{"stream-def": true, "eval-def": true, "query-value": true, "restart-deterministic": true}
 
 // applyGhost performs `ghost NAME(self) = expr`.
 func (x *Exec) applyGhost(s *State, env *specEnv, cl *Clause, pre map[string]T, recv *sval) {
